@@ -33,6 +33,10 @@ type LConv struct {
 	// GuardedDecl: the converter interface itself is declared in a file guarded by
 	// //go:build <tag>; only the types live in the unguarded file.
 	GuardedDecl bool `json:"guarded_decl,omitempty"`
+	// Short: only the first method is declared (the output gets shorter).
+	Short bool `json:"short,omitempty"`
+	// PkgFirst: the output:package line is written above the output:file line.
+	PkgFirst bool `json:"pkg_first,omitempty"`
 	// Raw is a goverter:output:raw line.
 	Raw string `json:"raw,omitempty"`
 }
@@ -48,6 +52,9 @@ type LSpec struct {
 	UserPkgUses map[string]string `json:"user_pkg_uses,omitempty"`
 	// PkgNames: directory → package name used by the declaring packages.
 	PkgNames map[string]string `json:"pkg_names"`
+	// FileConstraint: declaring file (dir/file) → a //go:build expression that is satisfied on
+	// this platform; the declaring file is then a constrained user file.
+	FileConstraint map[string]string `json:"file_constraint,omitempty"`
 	// GlobalOutFile: `-g "output:file X"` on the command line (applies to every converter
 	// that has no output:file of its own; relative to each declaring file). Only drawn for
 	// worlds without goverter:variables blocks.
@@ -207,6 +214,9 @@ func (s *LSpec) Render() map[string]string {
 		convs := byFile[key]
 		dir := convs[0].Dir
 		var b strings.Builder
+		if fc, ok := s.FileConstraint[key]; ok {
+			fmt.Fprintf(&b, "//go:build %s\n\n", fc)
+		}
 		fmt.Fprintf(&b, "package %s\n\n", s.PkgNames[dir])
 		for _, c := range convs {
 			s.renderConv(&b, c)
@@ -263,10 +273,13 @@ func (s *LSpec) renderConv(b *strings.Builder, c *LConv) {
 	}
 	var lines []string
 	lines = append(lines, "// "+marker)
+	if c.OutPkg != "" && c.PkgFirst {
+		lines = append(lines, "// goverter:output:package "+c.OutPkg)
+	}
 	if c.OutFile != "" {
 		lines = append(lines, "// goverter:output:file "+c.OutFile)
 	}
-	if c.OutPkg != "" {
+	if c.OutPkg != "" && !c.PkgFirst {
 		lines = append(lines, "// goverter:output:package "+c.OutPkg)
 	}
 	if c.Format != "" && c.Kind == "interface" {
@@ -298,15 +311,26 @@ func (s *LSpec) renderConv(b *strings.Builder, c *LConv) {
 	if c.Defect == "methoddirective" {
 		methodDoc = "    // goverter:map\n"
 	}
+	if c.Short {
+		sig1 = ""
+	}
+	m1 := ""
+	if sig1 != "" {
+		if c.Kind == "interface" {
+			m1 = fmt.Sprintf("    %s%s\n", c.method(1), sig1)
+		} else {
+			m1 = fmt.Sprintf("    %s func%s\n", c.method(1), sig1)
+		}
+	}
 	if c.Kind == "interface" && c.GuardedDecl {
 		s.guardedDecls = append(s.guardedDecls, [2]string{
 			path.Join(c.Dir, "decl_"+strings.ToLower(c.Name)+"_guarded.go"),
-			fmt.Sprintf("//go:build %s\n\npackage %s\n\n%s\ntype %s interface {\n%s    %s%s\n    %s%s\n}\n", s.tag(), s.PkgNames[c.Dir], strings.Join(lines, "\n"), n, methodDoc, c.method(0), sig0, c.method(1), sig1),
+			fmt.Sprintf("//go:build %s\n\npackage %s\n\n%s\ntype %s interface {\n%s    %s%s\n%s}\n", s.tag(), s.PkgNames[c.Dir], strings.Join(lines, "\n"), n, methodDoc, c.method(0), sig0, m1),
 		})
 	} else if c.Kind == "interface" {
-		fmt.Fprintf(b, "%s\ntype %s interface {\n%s    %s%s\n    %s%s\n}\n\n", strings.Join(lines, "\n"), n, methodDoc, c.method(0), sig0, c.method(1), sig1)
+		fmt.Fprintf(b, "%s\ntype %s interface {\n%s    %s%s\n%s}\n\n", strings.Join(lines, "\n"), n, methodDoc, c.method(0), sig0, m1)
 	} else {
-		fmt.Fprintf(b, "%s\nvar (\n%s    %s func%s\n    %s func%s\n)\n\n", strings.Join(lines, "\n"), methodDoc, c.method(0), sig0, c.method(1), sig1)
+		fmt.Fprintf(b, "%s\nvar (\n%s    %s func%s\n%s)\n\n", strings.Join(lines, "\n"), methodDoc, c.method(0), sig0, m1)
 	}
 	raw, cooked := "int", "int"
 	if c.Guarded {
@@ -475,6 +499,13 @@ func DrawLayout(rng *rand.Rand, nConv int, opts LayoutOpts) *LSpec {
 		if opts.Guarded && rng.IntN(4) == 0 {
 			c.Guarded = true
 		}
+		c.PkgFirst = rng.IntN(2) == 0
+		if rng.IntN(6) == 0 {
+			if s.FileConstraint == nil {
+				s.FileConstraint = map[string]string{}
+			}
+			s.FileConstraint[path.Join(c.Dir, c.File)] = []string{"linux || darwin", "(linux || windows) && amd64 || !plan9", "linux", "!js"}[rng.IntN(4)]
+		}
 		if opts.Guarded && c.Kind == "interface" && rng.IntN(4) == 0 {
 			c.GuardedDecl = true
 		}
@@ -573,6 +604,12 @@ func (s *LSpec) Clone() *LSpec {
 	for k, v := range s.UserPkgs {
 		n.UserPkgs[k] = v
 	}
+	if s.FileConstraint != nil {
+		n.FileConstraint = map[string]string{}
+		for k, v := range s.FileConstraint {
+			n.FileConstraint[k] = v
+		}
+	}
 	if s.UserPkgUses != nil {
 		n.UserPkgUses = map[string]string{}
 		for k, v := range s.UserPkgUses {
@@ -580,4 +617,13 @@ func (s *LSpec) Clone() *LSpec {
 		}
 	}
 	return &n
+}
+
+// Shorten declares only the first method of every converter (outputs get shorter).
+func (s *LSpec) Shorten() *LSpec {
+	n := s.Clone()
+	for i := range n.Convs {
+		n.Convs[i].Short = true
+	}
+	return n
 }
